@@ -8,31 +8,33 @@
    Filter clause: proved for every interface, every argument list, every implementation, every combination of
    pass-through filters, with no hypothesis on the codec (the C01_filters theorems).
    Value, error and one-way clauses:
-     - C01_..._outs_last_partial: proved with NO codec hypothesis (argument list, results and both packets go through
-       C03's struct-level round trip, the frame through C07's reassembly theorem) for every schema environment that is
-       well formed, every signature whose out parameters follow its in parameters, every well-typed argument and
-       result value of every IDL type, fresh out variables; values up to [norm] (identity except an optional scalar
-       struct member equal to its default: -0.0 comes back as +0.0). PARTIAL in: signatures with an in parameter after
-       an out parameter (the encoded out arguments would have to be shown skippable), static size conditions [sig_fine].
-     - C01_..._partial: every signature, under the named per-call hypotheses [wire_ok_req], [wire_ok_rsp],
-       [args_roundtrip], [results_roundtrip] (the codec round-trips this very call; evaluated on every sampled call by
-       the correspondence).
-     - C01_transparent_ok_statement (every signature, any content of the out variables, exact values) is REFUTED:
+     - C01_transparent_ok, C01_transparent_err, C01_oneway: proved with NO codec hypothesis (argument list, results and
+       both packets go through C03's struct-level round trip, the encoded out arguments between in arguments are passed
+       over by C04's skip_exact, the frames go through C07's reassembly theorem) for every well-formed schema
+       environment, EVERY signature (in and out parameters in any order), every well-typed argument and result value
+       of every IDL type, fresh out variables. Side conditions, all explicit: static size conditions [sig_fine],
+       out arguments within the skipping reader's limits [outs_skippable] (nesting <= the skip depth limit regenerated
+       from the code, containers < 2^30), packets in their Go field ranges and within maxPackageLength. Values are exact
+       up to [norm] (identity except an optional scalar struct member equal to its default: -0.0 comes back as +0.0).
+     - C01_..._partial: the same clauses under the named per-call hypotheses [wire_ok_req], [wire_ok_rsp],
+       [args_roundtrip], [results_roundtrip] instead of typing (any values, pre-filled out variables; evaluated on every
+       sampled call by the correspondence).
+     - C01_transparent_ok_any_outs_statement (any content of the out variables, exact values) is REFUTED:
        a pre-filled out variable keeps stale content (known finding; C01_prefilled_out_refuted). *)
 From Coq Require Import List NArith ZArith Bool.
-From TarsV Require Import Gen.Consts Gen.Schemas Base.Hex Codec.GenCodec Codec.RoundTrip Frame.Framing Rpc.Filters Rpc.FiltersProofs
+From TarsV Require Import Gen.Consts Gen.Schemas Base.Hex Codec.GenCodec Codec.RoundTrip Frame.Framing Rpc.ValueWire Rpc.Filters Rpc.FiltersProofs
   Rpc.EndToEnd Rpc.EndToEndProofs Rpc.EndToEndConc Rpc.EndToEndCorr Rpc.EndToEndFull Rpc.EndToEndExamples.
 Import ListNotations.
 Open Scope N_scope.
 
-(* full statement of the value clause: every signature, any content of the caller's out variables, exact values *)
-Definition C01_transparent_ok_statement : Prop :=
+(* the value clause for any content of the caller's out variables, exact values *)
+Definition C01_transparent_ok_any_outs_statement : Prop :=
   forall e k n sid_req sid_rsp max impl (Pc Ps : pfilters ev unit) i f args o id sv t ret outs rc rs,
     wf_schema k e -> (k <= 40)%nat ->
     fields_of e sid_req = schema_requestf_RequestPacket -> fields_of e sid_rsp = schema_requestf_ResponsePacket ->
     max < 4294967296 ->
     let q := mkreq e f args o false id sv t in
-    find_fn i (fs_name f) = Some f -> sig_fine e k n f -> args_typed e (fs_args f) args ->
+    find_fn i (fs_name f) = Some f -> sig_fine e k n f -> args_typed e (fs_args f) args -> outs_skippable f args ->
     impl (fs_name f) (ins_of f args) (ctx_of o) (status_of o) = IOk ret outs rc rs -> ret_shape f ret ->
     results_typed e f (results ret outs) ->
     req_sendable e sid_req max q -> rsp_sendable e sid_rsp max (ok_reply e f q ret outs rc rs) ->
@@ -41,23 +43,24 @@ Definition C01_transparent_ok_statement : Prop :=
 
 (* refuted on the faithful model (and on the code: known finding e2e/out/prefilled-out-variable/...): the caller's
    out variable of type Item holds nums = [1; -5000000000], the implementation sets nums = [], the caller reads the old nums *)
-Theorem C01_prefilled_out_refuted : ~ C01_transparent_ok_statement.
+Theorem C01_prefilled_out_refuted : ~ C01_transparent_ok_any_outs_statement.
 Proof. exact EndToEndExamples.prefilled_out_refutes. Qed.
 
 (* success, no codec hypothesis: well-formed schemas (tags ascending, defaults on scalars, by-value nesting <= k), the
-   two packet schemas as regenerated from the code, a signature with outs after ins within the static size conditions,
+   two packet schemas as regenerated from the code, any signature within the static size conditions, out arguments the
+   dispatcher can pass over,
    well-typed arguments and results, fresh out variables, packets in range and within maxPackageLength. The call site
    gets the implementation's return value and out parameters (normalised), each map the caller passed holds exactly the
    response context/status; the implementation is called exactly once with the caller's in arguments (normalised),
    context and status; each selected filter runs once, in registration order; one reply. *)
-Theorem C01_transparent_ok_outs_last_partial :
+Theorem C01_transparent_ok :
   forall e k n sid_req sid_rsp max impl (Pc Ps : pfilters ev unit) i f args o id sv t ret outs rc rs,
     wf_schema k e -> (k <= 40)%nat ->
     fields_of e sid_req = schema_requestf_RequestPacket -> fields_of e sid_rsp = schema_requestf_ResponsePacket ->
     max < 4294967296 ->
     let q := mkreq e f args o false id sv t in
-    find_fn i (fs_name f) = Some f -> sig_ok e k n f ->
-    args_typed e (fs_args f) args -> outs_fresh e f args ->
+    find_fn i (fs_name f) = Some f -> sig_fine e k n f ->
+    args_typed e (fs_args f) args -> outs_skippable f args -> outs_fresh e f args ->
     impl (fs_name f) (ins_seen e f args) (ctx_of o) (status_of o) = IOk ret outs rc rs ->
     results_typed e f (results ret outs) ->
     req_sendable e sid_req max q -> rsp_sendable e sid_rsp max (ok_reply e f q ret outs rc rs) ->
@@ -68,13 +71,13 @@ Theorem C01_transparent_ok_outs_last_partial :
 Proof. intros e k n sid_req sid_rsp max impl Pc Ps i f args o id sv t ret outs rc rs Hwf Hk Hq Hp Hm. exact (EndToEndFull.transparent_ok_closed e k Hwf Hk sid_req sid_rsp Hq Hp max Hm n impl Pc Ps i f args o id sv t ret outs rc rs). Qed.
 
 (* failure, no codec hypothesis: code exact, message exact unless empty ([err_seen]) *)
-Theorem C01_transparent_err_outs_last_partial :
+Theorem C01_transparent_err :
   forall e k n sid_req sid_rsp max impl (Pc Ps : pfilters ev unit) i f args o id sv t c m,
     wf_schema k e -> (k <= 40)%nat ->
     fields_of e sid_req = schema_requestf_RequestPacket -> fields_of e sid_rsp = schema_requestf_ResponsePacket ->
     max < 4294967296 ->
     let q := mkreq e f args o false id sv t in
-    find_fn i (fs_name f) = Some f -> sig_ok e k n f -> args_typed e (fs_args f) args ->
+    find_fn i (fs_name f) = Some f -> sig_fine e k n f -> args_typed e (fs_args f) args -> outs_skippable f args ->
     impl (fs_name f) (ins_seen e f args) (ctx_of o) (status_of o) = IFail c m -> c <> 0%Z ->
     req_sendable e sid_req max q -> rsp_sendable e sid_rsp max (err_reply q c m) ->
     call e sid_req sid_rsp max impl (filters_of inv_res Pc) (filters_of disp_res Ps) i f args o false id sv t =
@@ -84,13 +87,14 @@ Theorem C01_transparent_err_outs_last_partial :
 Proof. intros e k n sid_req sid_rsp max impl Pc Ps i f args o id sv t c m Hwf Hk Hq Hp Hm. exact (EndToEndFull.transparent_err_closed e k Hwf Hk sid_req sid_rsp Hq Hp max Hm n impl Pc Ps i f args o id sv t c m). Qed.
 
 (* one-way, no codec hypothesis: the implementation runs exactly once on the caller's inputs, no reply is written *)
-Theorem C01_oneway_outs_last_partial :
+Theorem C01_oneway :
   forall e k n sid_req sid_rsp max impl (Pc Ps : pfilters ev unit) i f args o id sv t,
     wf_schema k e -> (k <= 40)%nat ->
     fields_of e sid_req = schema_requestf_RequestPacket -> fields_of e sid_rsp = schema_requestf_ResponsePacket ->
     max < 4294967296 ->
     let q := mkreq e f args o true id sv t in
-    find_fn i (fs_name f) = Some f -> sig_ok e k n f -> args_typed e (fs_args f) args -> req_sendable e sid_req max q ->
+    find_fn i (fs_name f) = Some f -> sig_fine e k n f -> args_typed e (fs_args f) args -> outs_skippable f args ->
+    req_sendable e sid_req max q ->
     call e sid_req sid_rsp max impl (filters_of inv_res Pc) (filters_of disp_res Ps) i f args o true id sv t =
     (CSent,
      before Pc ++ [EInvoke] ++ before Ps ++ [EDispatch; EImpl (fs_name f) (ins_seen e f args) (ctx_of o) (status_of o)]
@@ -206,9 +210,9 @@ Theorem C01_concurrent_any_order : forall e k sid_req sid_rsp max impl (Ps : pfi
 Proof. intros e k sid_req sid_rsp max impl Ps i qs sent cq written cp Hwf Hk Hq Hp Hm. exact (EndToEndFull.concurrent_closed e k Hwf Hk sid_req sid_rsp Hq Hp max Hm impl Ps i qs sent cq written cp). Qed.
 
 Print Assumptions C01_prefilled_out_refuted.
-Print Assumptions C01_transparent_ok_outs_last_partial.
-Print Assumptions C01_transparent_err_outs_last_partial.
-Print Assumptions C01_oneway_outs_last_partial.
+Print Assumptions C01_transparent_ok.
+Print Assumptions C01_transparent_err.
+Print Assumptions C01_oneway.
 Print Assumptions C01_transparent_ok_partial.
 Print Assumptions C01_transparent_err_partial.
 Print Assumptions C01_oneway_partial.
